@@ -1,6 +1,10 @@
 package nfa
 
-import "github.com/coregx/coregex/verifhook"
+import (
+	"unsafe"
+
+	"github.com/coregx/coregex/verifhook"
+)
 
 // BoundedBacktracker implements a bounded backtracking regex matcher.
 // It uses generation-based visited tracking with uint8 for (state, position) pairs,
@@ -173,6 +177,9 @@ func (b *BoundedBacktracker) reset(state *BacktrackerState, haystackLen int) {
 		vwrap = cap(state.Visited) // entries cleared
 	}
 	if verifhook.On {
+		// entry of a search that uses this BacktrackerState's mutable scratch
+		verifhook.Emit("scr.begin", int(uintptr(unsafe.Pointer(state))), 2)
+		verifhook.Gate("scr", uintptr(unsafe.Pointer(state)))
 		verifhook.Emit("btreset", entriesNeeded, vcap, vrealloc, int(state.Generation), vwrap, b.numStates, haystackLen, cap(state.Visited), b.maxVisitedSize)
 	}
 }
